@@ -532,7 +532,8 @@ SBuf::chop(size_type pos, size_type n)
     if (pos == npos || pos > length())
         pos = length();
 
-    if (n == npos || (pos+n) > length())
+    // pos <= length() here; "pos+n" could wrap size_type
+    if (n == npos || n > length() - pos)
         n = length() - pos;
 
     // if there will be nothing left, reset the buffer while we can
